@@ -99,7 +99,8 @@ PROPS['C12']['level_text'] = ("Panic freedom is an IMPLICIT obligation of every 
     "(responses/mod.rs, count.rs from_frame, sticker get/value, tag.rs, filter.rs, command_list.rs tuples, client handle functions). The remaining decoders (song.rs, list.rs, playlist.rs, grouped count, sticker list/find, definitions.rs response fns, Vec command lists) are covered only by the bounded fuzz typedfuzz")
 PROPS['C12']['level_note'] = 'mixed: proof for the functions listed under functions_under_contract, bounded (typedfuzz, labelled bounded) for functions_not_under_contract; built without the chrono feature'
 PROPS['C16']['level_text'] = ("Status, Stats, ReplayGainStatus, Count (plain), AlbumArt, StickerGet and the field extraction helpers are PROVED equal to field oracles evaluated on the ORIGINAL frame (every optional-field subset, any field order, values outside the domain => error), for all frames. "
-    "Grouped count, list (plain/grouped), listplaylists, sticker list/find, channels, messages, tag types are iterator-adaptor / HashMap code outside Verus' reach: bounded differential stand-in typeddiff")
+    "Also proved: listplaylists (Playlist::parse_frame) for well-formed replies, and the grouped-list state machine (List::grouped_values, GroupedListValuesIter::next) against a grouping oracle. "
+    "Grouped count, List::from_frame and the plain list iterators, sticker list/find, channels, messages, tag types are generic-iterator / iterator-adaptor / HashMap code outside Verus' reach: bounded differential stand-in typeddiff")
 PROPS['C16']['level_note'] = 'mixed: proof for the decoders under contract, bounded (typeddiff) for the rest; number/duration parsing of std is an uninterpreted function of the text'
 PROPS['C20']['level_text'] = ("Proved for all tags / subsystems / candidate strings: as_str equals the oracle name table, ==, cmp, partial_cmp and hash are functions of the protocol name only, parsing is total and case-insensitive for known names with the exact error for the first offending character, "
     "named variants round-trip; one clause fails and is a known finding (catch-all holding a known name in another letter case)")
